@@ -55,15 +55,31 @@ func BigDecimalFloatToBigInt(value *apd.Decimal, maxBase10Exponent int) (*big.In
 }
 
 func BigDecimalFloatToUint(value *apd.Decimal) (uint64, error) {
+	if value.Form != apd.Finite {
+		return 0, fmt.Errorf("%v cannot fit into type uint64", value)
+	}
+	if value.Negative && !value.IsZero() {
+		return 0, fmt.Errorf("%v is negative, and cannot be represented by an unsigned int", value)
+	}
 	if i, err := value.Int64(); err == nil {
 		return uint64(i), nil
 	}
 
-	bf, err := BigDecimalFloatToBigFloat(value)
-	if err != nil {
-		return 0, err
+	// Not an int64: do the conversion with exact integer arithmetic (going
+	// through a big.Float would round to the precision of the digit count).
+	integ, frac := new(apd.Decimal), new(apd.Decimal)
+	value.Modf(integ, frac)
+	if !frac.IsZero() {
+		return 0, fmt.Errorf("%v has a fractional part, and cannot be represented by an unsigned int", value)
 	}
-	return BigFloatToUint(bf)
+	const maxUint64Digits = 20
+	if integ.Exponent > maxUint64Digits {
+		return 0, fmt.Errorf("%v cannot fit into type uint64", value)
+	}
+	bi := big.NewInt(int64(integ.Exponent))
+	bi.Exp(common.BigInt10, bi, nil)
+	bi.Mul(bi, &integ.Coeff)
+	return BigIntToUint(bi)
 }
 
 // big.Float to other
